@@ -277,6 +277,23 @@ Theorem C17_serve_bounded : forall limit l count bytes lookups c b k maxsz,
 Proof. exact serve_bounded. Qed.
 Print Assumptions C17_serve_bounded.
 
+(* Downloader deliveries (aqua/downloader/queue.go deliver, behind DeliverBodies and
+   DeliverReceipts): whatever a peer returns — more, fewer, or other entries than
+   were requested, or a reply nobody asked for — the accepted entries are a prefix of
+   the request, each matching its header: never more than requested, never more than
+   sent, nothing at all when no request is in flight. *)
+Theorem C17_deliver_rule_bounded : forall (pending : option nat) (matches : list bool) (a : N) (c : dlv_class),
+  deliver_rule pending matches = (a, c) ->
+  match pending with
+  | None => a = 0 /\ c = DlvNoFetch
+  | Some req => a <= N.of_nat req /\ a <= lenN matches /\
+                firstn (N.to_nat a) matches = repeat true (N.to_nat a) /\
+                (c = DlvOk -> a = N.min (N.of_nat req) (lenN matches)) /\
+                (c = DlvStale -> a = 0)
+  end.
+Proof. exact deliver_rule_bounded. Qed.
+Print Assumptions C17_deliver_rule_bounded.
+
 (* ---- constants regenerated from /repo on every run (Generated/GenParamsNet.v),
         pinned to the documented values and to the relations the models use ---- *)
 Theorem C17_net_params_pinned :
